@@ -69,6 +69,9 @@ type Spec struct {
 	KeyLeaf   bool
 	// swarm-style per-world knobs
 	W          [12]int // weights: leaf, basic, nbasic, struct, ptr, slice, map, ustruct, ref, enum, tptr, sptr
+	// UseUnderlying: goverter:useUnderlyingTypeMethods on the converter (C04 worlds; there is
+	// no method it could select, so the generated conversions must stay deep copies).
+	UseUnderlying bool
 	UseZero    bool    // goverter:useZeroValueOnPointerInconsistency (enables *T -> T positions)
 	UpdRoot    map[int]bool // roots that also get an update-signature method
 	UPlainPct  int     // chance that an unnamed struct has only basic fields (identical on both sides)
@@ -125,6 +128,7 @@ func NewSpec(seed uint64, prop string) *Spec {
 	s.AutoMethodSrc = r.IntN(2) == 0
 	s.UFieldsMax = 2 + r.IntN(3)
 	s.maxDepth = 3 + r.IntN(3)
+	s.UseUnderlying = prop == "C04" && r.IntN(3) == 0
 	s.Shared = map[int]*node{}
 	s.NConts = map[int]*node{}
 	s.SkipCopyMode = "none"
@@ -152,6 +156,22 @@ func NewSpec(seed uint64, prop string) *Spec {
 		// ending in an unnamed struct with several fallible fields: long location paths
 		root := s.Roots[r.IntN(len(s.Roots))]
 		root.Fields = append(root.Fields, s.mkField(len(root.Fields), s.genChain(1+r.IntN(12)), root))
+	}
+	if prop == "C07" {
+		// directly nested unnamed lists converted inside ONE generated method, the fallible
+		// element being set at an index below an index (and below a key)
+		root := s.Roots[r.IntN(len(s.Roots))]
+		sl := func(e *node) *node { return &node{Kind: "slice", Elem: e} }
+		var n *node
+		switch r.IntN(3) {
+		case 0:
+			n = sl(sl(s.leafNoMap()))
+		case 1:
+			n = sl(sl(sl(s.leafNoMap())))
+		default:
+			n = &node{Kind: "map", Key: &node{Kind: "basic", Basic: "string"}, Elem: sl(sl(s.leafNoMap()))}
+		}
+		root.Fields = append(root.Fields, s.mkField(len(root.Fields), n, root))
 	}
 	if prop == "C04" && r.IntN(2) == 0 {
 		// shapes the builders treat specially: T → *T around an identical unnamed struct of
@@ -341,13 +361,16 @@ func (s *Spec) genStruct(depth int) *node {
 		n.Fields = append(n.Fields, &field{TOnly: true, MapPath: fmt.Sprintf("Get%d", n.ID), Name: fmt.Sprintf("Got%d", n.ID), TName: fmt.Sprintf("Got%d", n.ID), N: gn})
 		n.Getter = true
 	}
-	if s.Prop == "C04" && s.rng.IntN(4) == 0 {
+	if s.Prop == "C04" && (s.rng.IntN(4) == 0 || s.UseUnderlying) {
 		// a container that is a named type on one side and its unnamed form on the other
 		// (assignable, but not identical)
 		var el *node
-		if s.rng.IntN(2) == 0 {
+		switch s.rng.IntN(3) {
+		case 0:
 			el = &node{Kind: "slice", Elem: &node{Kind: "basic", Basic: []string{"string", "int"}[s.rng.IntN(2)]}}
-		} else {
+		case 1:
+			el = &node{Kind: "slice", Elem: &node{Kind: "ptr", Elem: &node{Kind: "basic", Basic: "int"}}}
+		default:
 			el = &node{Kind: "map", Key: &node{Kind: "basic", Basic: "string"}, Elem: &node{Kind: "basic", Basic: "string"}}
 		}
 		nc := &node{Kind: "ncont", ID: s.id(), Basic: []string{"S", "T"}[s.rng.IntN(2)], Elem: el}
@@ -815,6 +838,16 @@ func (s *Spec) methods(twin bool) []methodSpec {
 				isRoot = true
 			}
 		}
+		// an update method of this struct needs the same field mappings
+		for i := range ms {
+			if ms[i].Update && ms[i].Name == fmt.Sprintf("Upd%d", id) {
+				for _, l := range doc {
+					if strings.HasPrefix(l, "goverter:map ") {
+						ms[i].Doc = append(ms[i].Doc, l)
+					}
+				}
+			}
+		}
 		if len(doc) > 0 || isRoot || n.MethodSrc || n.Ctor {
 			ms = append(ms, methodSpec{Name: fmt.Sprintf("Conv%d", id), In: fmt.Sprintf("S%d", id), Out: out(fmt.Sprintf("T%d", id)), Doc: doc})
 		}
@@ -869,6 +902,9 @@ func (s *Spec) ConverterSource() string {
 		}
 		if s.UseZero {
 			lines = append(lines, "// goverter:useZeroValueOnPointerInconsistency")
+		}
+		if s.UseUnderlying {
+			lines = append(lines, "// goverter:useUnderlyingTypeMethods")
 		}
 		if s.Unexported {
 			lines = append(lines, "// goverter:ignoreUnexported")
